@@ -22,9 +22,6 @@ Definition q_ctx_indep (e : expr) : bool :=
   | _ => true
   end.
 
-Definition env_of_facts (E : facts) : env :=
-  flat_map (fun xe => match lit_val (snd xe) with Some v => [(fst xe, v)] | None => [] end) E.
-
 (* "cl_e evaluates to the value of cl_lit" (same number up to the encoding) *)
 Definition claim_ok_prov (cl : claim) : bool :=
   let s := env_of_facts (cl_env cl) in
@@ -49,7 +46,7 @@ Definition guess_ctx_prov (E : facts) (e : expr) : option ctx :=
   | _ => None
   end.
 
-Definition validate_constfold (d : nat) := vrw_func claim_ok_prov guess_ctx_prov d.
+Definition validate_constfold (d : nat) := vrw_func 20 claim_ok_prov guess_ctx_prov d.
 
 (* ---------------------------------------------------------------- the code of a step *)
 Definition b2n (b : bool) (w : nat) : nat := if b then w else O.
